@@ -10,6 +10,7 @@ import DcmVerif.Model.Extract
 import DcmVerif.Model.Group
 import DcmVerif.Model.Cli
 import DcmVerif.Model.Wrap
+import DcmVerif.Model.StackAdd
 /-! `dcmdriver`: one JSON object per input line, one JSON answer per line.  Values of metadata
 are opaque strings (the harness sends the canonical JSON text of each value), so equality in the
 model is string equality. -/
@@ -409,6 +410,23 @@ def handle (j : Json) : Except String Json := do
     match Wrap.stackAff affs S with
     | some A => pure (Json.mkObj [("arr", arrJson a), ("aff", affJson A)])
     | none => pure (Json.mkObj [("err", "IndexError")])
+  | "stack_add" =>
+    let explicit ← (← j.getObjVal? "explicit").getBool?
+    let cands ← (← (← j.getObjVal? "cands").getArr?).toList.mapM fun c => do
+      let optInt (x : Json) : Except String (Option Int) := if x.isNull then pure none else (x.getInt?).map some
+      pure ({ isImage := ← (← c.getObjVal? "img").getBool?, rows := ← (← c.getObjVal? "rows").getNat?,
+              cols := ← (← c.getObjVal? "cols").getNat?, geom := ← getIntList (← c.getObjVal? "geom"),
+              f := { v := ← (← c.getObjVal? "v").getInt?, t := ← (← c.getObjVal? "t").getInt?,
+                     p := ← (← c.getObjVal? "p").getInt?, id := ← (← c.getObjVal? "id").getNat? },
+              tr := ← optInt (← c.getObjVal? "tr"), pe := ← getOptNat (← c.getObjVal? "pe") } : Stk.Cand)
+    let r := Stk.addAll explicit Stk.AddSt.init cands
+    let outName : Stk.AddOut → String
+      | .ok => "ok" | .nonImage => "NonImageDataSetError" | .incongruent => "IncongruentImageError"
+      | .collision => "ImageCollisionError"
+    pure (Json.mkObj [("outs", Json.arr (r.2.map fun o => Json.str (outName o)).toArray),
+      ("files", idsJson r.1.files), ("ntr", (r.1.trs.length : Json)), ("npe", (r.1.pes.length : Json)),
+      ("ntuples", (r.1.tuples.length : Json)),
+      ("ref", match r.1.ref with | some c => (c.f.id : Json) | none => Json.null)])
   | "regex_filter" =>
     let excl ← getStrList (← j.getObjVal? "excl")
     let incl ← getStrList (← j.getObjVal? "incl")
